@@ -16,6 +16,7 @@ EXPLANATION = (
     "source is a lambda body, so that fusion and projection continue inside it - is visited by the implementation; (R2) the projection "
     "and First() push-through dispatch on the *visited* value (what the expression is after substitution), for Tuple, List, Dict and "
     "First; (R3) each (Subscript x Tuple/List/Dict) and (Attribute x Dict) case has a handler returning the selected element."
+    " In R3 the attribute node is rebuilt only when the visited value is *not* a Dict literal (the result of the key lookup is never discarded), and every attribute of a Dict literal is looked up."
 )
 NOT_DECIDED = "that elimination completes for every chain (a fixpoint statement about the rewriting system); equality of results (C02)."
 
